@@ -384,10 +384,17 @@ func uriEncode(input string) string {
 	return output
 }
 
+// generateCanonicalQueryString canonicalizes the query string of a
+// header-signed request: every query parameter is part of what was signed.
 func generateCanonicalQueryString(r *http.Request) string {
+	return generateCanonicalQueryStringForRequest(r, false)
+}
+
+func generateCanonicalQueryStringForRequest(r *http.Request, isPresigned bool) string {
 	queryStrings := []pair{}
 	for queryKey, queryValues := range r.URL.Query() {
-		if queryKey == "X-Amz-Signature" {
+		// Only a presigned URL carries its signature in the query string.
+		if isPresigned && queryKey == "X-Amz-Signature" {
 			continue
 		}
 		encodedQueryKey := uriEncode(queryKey)
@@ -506,7 +513,7 @@ func generateHashedPayload(r *http.Request) (*string, error) {
 func generateCanonicalRequest(r *http.Request, headersToInclude []string, isPresigned bool) (*string, error) {
 	canonicalRequest := generateCanonicalHttpMethod(r) + "\n"
 	canonicalRequest += generateCanonicalURI(r) + "\n"
-	canonicalRequest += generateCanonicalQueryString(r) + "\n"
+	canonicalRequest += generateCanonicalQueryStringForRequest(r, isPresigned) + "\n"
 	canonicalRequest += generateCanonicalHeaders(r, headersToInclude) + "\n"
 	canonicalRequest += generateSignedHeaders(r, headersToInclude) + "\n"
 
